@@ -258,7 +258,8 @@ type c04PodSt struct {
 	added   bool // the cache has seen an add that was not followed by a delete
 	bound   bool // harness view: bound since the last delete (superset of the gang's BoundChildren)
 	flight  int  // 0 none, 1 parked at Permit (framework waiting map), 2 released (bind pending), 3 rejected (unreserve pending)
-	tainted bool // a Permit was issued for the pod while it was bound (breaks the framework contract)
+	seenNode bool // an informer event of this pod incarnation carried a node name (it can never be empty again)
+	tainted bool // out-of-contract call on this pod: Permit while bound, PostBind without release, or an informer event whose node name went back to empty
 }
 
 func TestVerifC04(t *testing.T) {
@@ -578,6 +579,10 @@ func TestVerifC04(t *testing.T) {
 			if term {
 				pod.Status.Phase = []corev1.PodPhase{corev1.PodSucceeded, corev1.PodFailed}[r.Intn(2)]
 			}
+			if !term && !node && ps.seenNode {
+				ps.tainted = true
+				h.Tag("contract-breach:node-name-unset")
+			}
 			fwB := begin()
 			if update {
 				h.Op("podupd %d %d %d %d %s", ps.id, ps.g, vB(node), vB(term), tail)
@@ -595,6 +600,7 @@ func TestVerifC04(t *testing.T) {
 				ps.added = true
 				if node {
 					markBound(ps)
+					ps.seenNode = true
 				}
 			}
 			if update {
@@ -609,7 +615,7 @@ func TestVerifC04(t *testing.T) {
 			fwB := begin()
 			h.Op("poddel %d %d", ps.id, ps.g)
 			pan := h.Guard(func() { cache.onPodDelete(pod) })
-			ps.added, ps.bound, ps.tainted = false, false, false
+			ps.added, ps.bound, ps.tainted, ps.seenNode = false, false, false, false
 			// a pod parked at Permit stays in the framework's waiting map until the framework rejects it
 			// (flight stays 1: the "times out" branch issues its Unreserve later)
 			h.Tag("op:poddel")
@@ -669,6 +675,10 @@ func TestVerifC04(t *testing.T) {
 		}
 		doPostBind := func(ps *c04PodSt) {
 			pod, _ := mkPod(ps, "")
+			if ps.flight != 2 {
+				ps.tainted = true // PostBind without a preceding release from Permit
+				h.Tag("contract-breach:postbind-without-release")
+			}
 			fwB := begin()
 			delete(fh.waiting, ps.id)
 			h.Op("postbind %d %d", ps.id, ps.g)
@@ -819,11 +829,11 @@ func TestVerifC04(t *testing.T) {
 				}
 				switch v := r.Intn(10); {
 				case v < 1:
-					doPodEvt(ps, true, ps.bound, true)
-				case v < 6 && ps.bound:
-					doPodEvt(ps, true, true, false)
+					doPodEvt(ps, true, ps.seenNode, true)
+				case ps.seenNode || (v < 6 && ps.bound):
+					doPodEvt(ps, true, true, false) // NodeName is immutable once the informer has shown it
 				default:
-					doPodEvt(ps, true, false, false)
+					doPodEvt(ps, true, false, false) // possibly stale w.r.t. a PostBind that already ran
 				}
 			case w < 92: // deletion
 				if ps := pick(func(x *c04PodSt) bool { return x.added }); ps != nil {
